@@ -38,6 +38,15 @@ def run(ctx, which):
                 ex, obs = add_to_ctx(ctx, c, callees)
                 n += len(obs)
             continue
+        if name == "convert":
+            from . import finalize_proofs
+
+            finalize_proofs._patch()
+            for c in F.all_convert():
+                c.prefix = ctx.pid + c.prefix[3:]
+                ex, obs = add_to_ctx(ctx, c, {})
+                n += len(obs)
+            continue
         c = F.CONTRACTS[name]()
         if name.startswith("cut_"):
             c.replay = F.replay_cut(name[4:])
